@@ -100,3 +100,55 @@ fn u02_4_table_serialize_layout() {
     core::mem::forget(bytes);
     core::mem::forget(ht);
 }
+
+// ------------------------------------------------------------------------------------ U02.5 header layout (V1 / V2)
+// The published header: 'MPQ\x1A', header size 32 / 44, 32-bit archive size, format version, sector shift, the four
+// table words; V2 adds the 64-bit hi-block table position and the two 16-bit high parts.  Every field at its published
+// offset, little-endian, for every parameter value; and MpqHeader::read returns the same values.
+fn header_layout(v2: bool) {
+    let shift: u16 = kani::any();
+    kani::assume(shift <= 15);
+    let b = ArchiveBuilder::new().version(if v2 { FormatVersion::V2 } else { FormatVersion::V1 }).block_size(shift);
+    let p = HeaderWriteParams { archive_size: kani::any(), hash_table_pos: kani::any(), block_table_pos: kani::any(), hash_table_size: kani::any(),
+        block_table_size: kani::any(), hi_block_table_pos: if kani::any() { Some(kani::any()) } else { None }, het_table_pos: None, bet_table_pos: None,
+        _het_table_size: None, _bet_table_size: None, v4_data: None };
+    let mut buf = [0xAAu8; 48];
+    let n = {
+        let mut c = std::io::Cursor::new(&mut buf[..]);
+        match b.write_header(&mut c, &p) { Ok(()) => {}, Err(e) => { core::mem::forget(e); assert!(false, "header write succeeds"); } }
+        c.position() as usize
+    };
+    let want = if v2 { 44 } else { 32 };
+    assert!(n == want, "header has the size of its version");
+    let w32 = |o: usize| u32::from_le_bytes([buf[o], buf[o + 1], buf[o + 2], buf[o + 3]]);
+    let w16 = |o: usize| u16::from_le_bytes([buf[o], buf[o + 1]]);
+    assert!(buf[0] == b'M' && buf[1] == b'P' && buf[2] == b'Q' && buf[3] == 0x1A, "signature");
+    assert!(w32(4) == want as u32, "header size field");
+    assert!(w32(8) == (if p.archive_size > u32::MAX as u64 { u32::MAX } else { p.archive_size as u32 }), "32-bit archive size (saturated)");
+    assert!(w16(12) == (if v2 { 1 } else { 0 }) && w16(14) == shift, "format version and sector shift");
+    assert!(w32(16) == p.hash_table_pos as u32 && w32(20) == p.block_table_pos as u32, "low parts of the table positions");
+    assert!(w32(24) == p.hash_table_size && w32(28) == p.block_table_size, "table sizes");
+    if v2 {
+        let hi = u64::from(w32(32)) | (u64::from(w32(36)) << 32);
+        assert!(hi == p.hi_block_table_pos.unwrap_or(0), "hi-block table position (0 when there is none)");
+        assert!(w16(40) == (p.hash_table_pos >> 32) as u16 && w16(42) == (p.block_table_pos >> 32) as u16, "high 16 bits of the table positions");
+    }
+    assert!(buf[want] == 0xAA, "nothing beyond the header");
+    core::mem::forget(b);
+}
+
+// @harness unit=U02.5 props=C02,C01 kind=complete timeout=600 target="builder.rs: write_header, format V1 (every parameter value)" oracle=mpq_interop
+#[kani::proof]
+#[kani::unwind(8)]
+#[kani::stub(alloc::fmt::format, stub_format)]
+fn u02_5_header_layout_v1() {
+    header_layout(false);
+}
+
+// @harness unit=U02.5 props=C02,C01 kind=complete timeout=600 target="builder.rs: write_header, format V2 (every parameter value)" oracle=mpq_interop
+#[kani::proof]
+#[kani::unwind(8)]
+#[kani::stub(alloc::fmt::format, stub_format)]
+fn u02_5_header_layout_v2() {
+    header_layout(true);
+}
